@@ -3,7 +3,7 @@ CONSTANTS
   Q = 11
   K = 2
   Idx = {1, 2, 3, 4}
-  NegIdx = {1, 3}
+  NegIdx = {3}
   MaxLen = 4
   Polys <- AllPolys
   Aligned = TRUE
